@@ -299,6 +299,25 @@ impl Ctx {
             .map(|k| k.0.clone())
             .collect();
 
+        // coverage floor: the number of cases of the reference run of this tier (COVERAGE_FLOOR.json, committed, never
+        // written at run time). A run that covers clearly less - a catalogue program that no longer builds, an
+        // oracle that silently gives up - says so through `caps_hit` (no verdict is attached to it)
+        let mut floor_info = Value::Null;
+        if !self.replay_only {
+            if let Ok(text) = std::fs::read_to_string(self.verif_root.join("COVERAGE_FLOOR.json")) {
+                if let Ok(v) = serde_json::from_str::<Value>(&text) {
+                    let f = &v[&self.id][self.tier.as_str()];
+                    for (key, now) in [("evaluations", self.evals()), ("distinct_nontrivial", self.distinct_count() as u64)] {
+                        if let Some(reference) = f[key].as_u64() {
+                            if now * 10 < reference * 9 {
+                                self.cap(format!("coverage below the recorded floor: {} {} now, {} in the reference run (COVERAGE_FLOOR.json)", now, key, reference));
+                            }
+                        }
+                    }
+                    floor_info = f.clone();
+                }
+            }
+        }
         let caps = self.caps.lock().unwrap().clone();
         let exhaustive = exhaustive && caps.is_empty();
 
@@ -313,6 +332,7 @@ impl Ctx {
         cov.insert("samples".into(), Value::Array(samples));
         cov.insert("exhaustive".into(), json!(exhaustive));
         cov.insert("caps_hit".into(), json!(caps));
+        cov.insert("coverage_floor".into(), floor_info);
         cov.insert(
             "counters".into(),
             json!(self.counters.lock().unwrap().clone()),
